@@ -216,6 +216,48 @@ func build(in *Input, perm uint64) *built {
 				Hashes: []*signature.ResourceIntegrity{{HeaderSha256: gen.Filler(32, in.Tag+uint64(i)), PayloadIntegrityHeader: "digest/mi-sha256-03"}}}
 		}
 		b.serializers["SignedSubset.Encode"] = func() ([]byte, error) { return ss.Encode() }
+		// the same serializer reached the way sign-bundle reaches it: a Signer to which exchanges are
+		// offered one by one; offers it REFUSES (a response header that cannot be encoded, a URL that
+		// it already holds) are not part of the logical input
+		{
+			f := gen.Fixtures()[0]
+			cc, err := certurl.NewCertChain(f.Chain, []byte("ocsp"), nil)
+			if err != nil {
+				panic(err)
+			}
+			sgn, err := signature.NewSigner(bversion.VersionB2, cc, f.Key, mustURL("https://a.example/v"), time.Unix(1_700_000_000, 0), time.Hour)
+			if err != nil {
+				panic(err)
+			}
+			nEx := min(in.N, 12)
+			mk := func(i int, tag uint64) *bundle.Exchange {
+				return &bundle.Exchange{Request: bundle.Request{URL: mustURL(fmt.Sprintf("https://a.example/s/%d", i))},
+					Response: bundle.Response{Status: 200, Header: map[string][]string{"Content-Type": {"text/plain"}, "X-I": {fmt.Sprint(i)}}, Body: gen.Filler(20+i, tag)}}
+			}
+			for _, i := range shuffled(nEx, perm) {
+				ex := mk(i, in.Tag+uint64(i))
+				id, err := ex.AddPayloadIntegrity(bversion.VersionB2, 16)
+				if err != nil {
+					panic(err)
+				}
+				if err := sgn.AddExchange(ex, id); err != nil {
+					panic(err)
+				}
+			}
+			b.serializers["Signer.AddExchange... -> SignedSubset.Encode"] = func() ([]byte, error) { return sgn.SignedSubset.Encode() }
+			b.faulty["Signer.AddExchange refused (response header cannot be encoded)"] = func(k int) error {
+				ex := mk(1000+k%7, uint64(k))
+				ex.Response.Header["X-Bad-\u00e9"] = []string{"v"}
+				return sgn.AddExchange(ex, "digest/mi-sha256-03")
+			}
+			if nEx > 0 {
+				b.faulty["Signer.AddExchange refused (URL already added)"] = func(k int) error {
+					ex := mk(k%nEx, uint64(k)+77)
+					ex.Response.Status = 404
+					return sgn.AddExchange(ex, "digest/mi-sha256-03")
+				}
+			}
+		}
 	case "certchain":
 		fx := gen.Fixtures()
 		certs := fx[int(in.Tag)%len(fx)].Chain
